@@ -1,30 +1,27 @@
 ---------------------------- MODULE SchemaModel ----------------------------
-EXTENDS Base, Fnv, TLC
+EXTENDS Wire, Fnv
 \* schema tree: [k |-> kind, ...]; kinds in the published variant order
 Kinds == <<"Bool","I8","U8","I16","I32","I64","I128","U16","U32","U64","U128","Usize","Isize","F32","F64",
            "Char","String","ByteArray","Option","Unit","Seq","Tuple","Map","Struct","Enum","Schema">>
 KindIdx(k) == (CHOOSE i \in 1..Len(Kinds) : Kinds[i] = k) - 1
 DataKinds == <<"Unit","Newtype","Tuple","Struct">>
 DataIdx(k) == (CHOOSE i \in 1..4 : DataKinds[i] = k) - 1
-SmallVar(n) == LET RECURSIVE F(_)
-                   F(x) == IF x < 128 THEN <<x>> ELSE <<(x % 128) + 128>> \o F(x \div 128)
-               IN F(n)
 EncStr(bs) == SmallVar(Len(bs)) \o bs
 RECURSIVE Concat(_)
 Concat(ss) == IF ss = <<>> THEN <<>> ELSE Head(ss) \o Concat(Tail(ss))
 
 \* ---- the schema-of-schema wire encoding (what Serialize of DataModelType / OwnedDataModelType must give) ----
-RECURSIVE EncSchema(_), EncData(_)
+RECURSIVE EncSchema(_), EncSData(_)
 EncSchema(t) ==
   <<KindIdx(t.k)>> \o
   CASE t.k \in {"Option", "Seq"} -> EncSchema(t.t)
     [] t.k = "Tuple" -> SmallVar(Len(t.ts)) \o Concat([i \in 1..Len(t.ts) |-> EncSchema(t.ts[i])])
     [] t.k = "Map" -> EncSchema(t.key) \o EncSchema(t.val)
-    [] t.k = "Struct" -> EncStr(t.name) \o EncData(t.data)
+    [] t.k = "Struct" -> EncStr(t.name) \o EncSData(t.data)
     [] t.k = "Enum" -> EncStr(t.name) \o SmallVar(Len(t.variants)) \o
-          Concat([i \in 1..Len(t.variants) |-> EncStr(t.variants[i].name) \o EncData(t.variants[i].data)])
+          Concat([i \in 1..Len(t.variants) |-> EncStr(t.variants[i].name) \o EncSData(t.variants[i].data)])
     [] OTHER -> <<>>
-EncData(d) ==
+EncSData(d) ==
   <<DataIdx(d.k)>> \o
   CASE d.k = "Unit" -> <<>>
     [] d.k = "Newtype" -> EncSchema(d.t)
@@ -72,4 +69,141 @@ Subtrees(t) == {t} \cup
     [] OTHER -> {}
 \* contiguous subsequence
 Occurs(n, h) == n = <<>> \/ \E i \in 1..(Len(h) - Len(n) + 1) : SubSeq(h, i, i + Len(n) - 1) = n
+
+\* ---------------------------------------------------------------------------------------------
+\* inverse of EncSchema: parse a schema-of-schema encoding (what Deserialize of OwnedDataModelType must accept)
+\* ---------------------------------------------------------------------------------------------
+MErr == [ok |-> FALSE]
+MOk(t, p) == [ok |-> TRUE, t |-> t, pos |-> p]
+\* small varint (index / length): [ok, n, pos]
+RECURSIVE RdSmall(_, _, _, _)
+RdSmall(bs, p, shift, acc) ==
+  IF p >= Len(bs) \/ shift > 21 THEN [ok |-> FALSE]
+  ELSE LET b == bs[p + 1] IN
+       IF b < 128 THEN [ok |-> TRUE, n |-> acc + b * Pow2(shift), pos |-> p + 1]
+       ELSE RdSmall(bs, p + 1, shift + 7, acc + (b - 128) * Pow2(shift))
+RdStr(bs, p) == LET l == RdSmall(bs, p, 0, 0) IN
+  IF ~l.ok \/ l.n > Len(bs) - l.pos THEN [ok |-> FALSE]
+  ELSE LET v == SubSeq(bs, l.pos + 1, l.pos + l.n) IN IF Utf8Valid(v) THEN [ok |-> TRUE, v |-> v, pos |-> l.pos + l.n] ELSE [ok |-> FALSE]
+RECURSIVE DecMeta(_, _), DecMetaData(_, _), DecMetaList(_, _, _, _), DecMetaFields(_, _, _, _), DecMetaVariants(_, _, _, _)
+DecMetaList(bs, p, cnt, acc) == IF cnt = 0 THEN [ok |-> TRUE, ts |-> acc, pos |-> p]
+  ELSE LET r == DecMeta(bs, p) IN IF ~r.ok THEN [ok |-> FALSE] ELSE DecMetaList(bs, r.pos, cnt - 1, Append(acc, r.t))
+DecMetaFields(bs, p, cnt, acc) == IF cnt = 0 THEN [ok |-> TRUE, fs |-> acc, pos |-> p]
+  ELSE LET n == RdStr(bs, p) IN IF ~n.ok THEN [ok |-> FALSE] ELSE
+       LET r == DecMeta(bs, n.pos) IN IF ~r.ok THEN [ok |-> FALSE] ELSE DecMetaFields(bs, r.pos, cnt - 1, Append(acc, [name |-> n.v, ty |-> r.t]))
+DecMetaVariants(bs, p, cnt, acc) == IF cnt = 0 THEN [ok |-> TRUE, vs |-> acc, pos |-> p]
+  ELSE LET n == RdStr(bs, p) IN IF ~n.ok THEN [ok |-> FALSE] ELSE
+       LET d == DecMetaData(bs, n.pos) IN IF ~d.ok THEN [ok |-> FALSE] ELSE DecMetaVariants(bs, d.pos, cnt - 1, Append(acc, [name |-> n.v, data |-> d.t]))
+DecMetaData(bs, p) ==
+  LET i == RdSmall(bs, p, 0, 0) IN
+  IF ~i.ok \/ i.n > 3 THEN MErr
+  ELSE CASE i.n = 0 -> MOk([k |-> "Unit"], i.pos)
+         [] i.n = 1 -> LET r == DecMeta(bs, i.pos) IN IF ~r.ok THEN MErr ELSE MOk([k |-> "Newtype", t |-> r.t], r.pos)
+         [] i.n = 2 -> LET l == RdSmall(bs, i.pos, 0, 0) IN IF ~l.ok \/ l.n > Len(bs) THEN MErr ELSE
+                       LET r == DecMetaList(bs, l.pos, l.n, <<>>) IN IF ~r.ok THEN MErr ELSE MOk([k |-> "Tuple", ts |-> r.ts], r.pos)
+         [] i.n = 3 -> LET l == RdSmall(bs, i.pos, 0, 0) IN IF ~l.ok \/ l.n > Len(bs) THEN MErr ELSE
+                       LET r == DecMetaFields(bs, l.pos, l.n, <<>>) IN IF ~r.ok THEN MErr ELSE MOk([k |-> "Struct", fs |-> r.fs], r.pos)
+DecMeta(bs, p) ==
+  LET i == RdSmall(bs, p, 0, 0) IN
+  IF ~i.ok \/ i.n >= Len(Kinds) THEN MErr
+  ELSE LET k == Kinds[i.n + 1] IN
+    CASE k \in {"Option", "Seq"} -> LET r == DecMeta(bs, i.pos) IN IF ~r.ok THEN MErr ELSE MOk([k |-> k, t |-> r.t], r.pos)
+      [] k = "Tuple" -> LET l == RdSmall(bs, i.pos, 0, 0) IN IF ~l.ok \/ l.n > Len(bs) THEN MErr ELSE
+                        LET r == DecMetaList(bs, l.pos, l.n, <<>>) IN IF ~r.ok THEN MErr ELSE MOk([k |-> "Tuple", ts |-> r.ts], r.pos)
+      [] k = "Map" -> LET a == DecMeta(bs, i.pos) IN IF ~a.ok THEN MErr ELSE
+                      LET c == DecMeta(bs, a.pos) IN IF ~c.ok THEN MErr ELSE MOk([k |-> "Map", key |-> a.t, val |-> c.t], c.pos)
+      [] k = "Struct" -> LET n == RdStr(bs, i.pos) IN IF ~n.ok THEN MErr ELSE
+                         LET d == DecMetaData(bs, n.pos) IN IF ~d.ok THEN MErr ELSE MOk([k |-> "Struct", name |-> n.v, data |-> d.t], d.pos)
+      [] k = "Enum" -> LET n == RdStr(bs, i.pos) IN IF ~n.ok THEN MErr ELSE
+                       LET l == RdSmall(bs, n.pos, 0, 0) IN IF ~l.ok \/ l.n > Len(bs) THEN MErr ELSE
+                       LET r == DecMetaVariants(bs, l.pos, l.n, <<>>) IN IF ~r.ok THEN MErr ELSE MOk([k |-> "Enum", name |-> n.v, variants |-> r.vs], r.pos)
+      [] OTHER -> MOk([k |-> k], i.pos)
+
+\* ---------------------------------------------------------------------------------------------
+\* a schema as a wire shape (what a schema-driven reader parses), and conformance of a recorded serde call tree
+\* ---------------------------------------------------------------------------------------------
+PrimShape(k) == CASE k = "Bool" -> "bool" [] k = "I8" -> "i8" [] k = "U8" -> "u8" [] k = "I16" -> "i16" [] k = "I32" -> "i32" [] k = "I64" -> "i64"
+  [] k = "I128" -> "i128" [] k = "U16" -> "u16" [] k = "U32" -> "u32" [] k = "U64" -> "u64" [] k = "U128" -> "u128" [] k = "Usize" -> "usize"
+  [] k = "Isize" -> "isize" [] k = "F32" -> "f32" [] k = "F64" -> "f64" [] k = "Char" -> "char" [] k = "String" -> "str" [] k = "ByteArray" -> "bytes"
+  [] k = "Unit" -> "unit" [] k = "Schema" -> "schema"
+RECURSIVE ShapeOf(_), ShapeOfData(_)
+ShapeOfData(d) == CASE d.k = "Unit" -> [k |-> "unit"]
+                    [] d.k = "Newtype" -> [k |-> "newtype", t |-> ShapeOf(d.t)]
+                    [] d.k = "Tuple" -> [k |-> "tuple", ts |-> [i \in 1..Len(d.ts) |-> ShapeOf(d.ts[i])]]
+                    [] d.k = "Struct" -> [k |-> "struct", fs |-> [i \in 1..Len(d.fs) |-> [n |-> d.fs[i].name, t |-> ShapeOf(d.fs[i].ty)]]]
+ShapeOf(t) ==
+  CASE t.k = "Option" -> [k |-> "opt", t |-> ShapeOf(t.t)]
+    [] t.k = "Seq" -> [k |-> "seq", t |-> ShapeOf(t.t)]
+    [] t.k = "Tuple" -> [k |-> "tuple", ts |-> [i \in 1..Len(t.ts) |-> ShapeOf(t.ts[i])]]
+    [] t.k = "Map" -> [k |-> "map", kt |-> ShapeOf(t.key), vt |-> ShapeOf(t.val)]
+    [] t.k = "Struct" -> (LET d == ShapeOfData(t.data) IN
+          CASE d.k = "unit" -> [k |-> "unit_struct"] [] d.k = "newtype" -> [k |-> "newtype_struct", t |-> d.t]
+            [] d.k = "tuple" -> [k |-> "tuple_struct", ts |-> d.ts] [] d.k = "struct" -> [k |-> "struct", fs |-> d.fs])
+    [] t.k = "Enum" -> [k |-> "enum", vs |-> [i \in 1..Len(t.variants) |-> [n |-> t.variants[i].name, d |-> ShapeOfData(t.variants[i].data)]]]
+    [] OTHER -> [k |-> PrimShape(t.k)]
+HasSchemaKind(sh) == LET RECURSIVE H(_)
+                         H(x) == \/ x.k = "schema"
+                                 \/ (x.k \in {"opt", "seq", "newtype_struct", "newtype"} /\ H(x.t))
+                                 \/ (x.k \in {"tuple", "tuple_struct"} /\ \E i \in 1..Len(x.ts) : H(x.ts[i]))
+                                 \/ (x.k = "struct" /\ \E i \in 1..Len(x.fs) : H(x.fs[i].t))
+                                 \/ (x.k = "map" /\ (H(x.kt) \/ H(x.vt)))
+                                 \/ (x.k = "enum" /\ \E i \in 1..Len(x.vs) : H(x.vs[i].d))
+                     IN H(sh)
+
+\* the schema of DataModelType / OwnedDataModelType themselves; the kind Schema marks the recursion
+S_ == [k |-> "Schema"]
+NF(n, ty) == [name |-> n, ty |-> ty]
+MetaData == [k |-> "Enum", name |-> <<>>, variants |-> <<
+    [name |-> <<85,110,105,116>>, data |-> [k |-> "Unit"]],
+    [name |-> <<78,101,119,116,121,112,101>>, data |-> [k |-> "Newtype", t |-> S_]],
+    [name |-> <<84,117,112,108,101>>, data |-> [k |-> "Newtype", t |-> [k |-> "Seq", t |-> S_]]],
+    [name |-> <<83,116,114,117,99,116>>, data |-> [k |-> "Newtype", t |-> [k |-> "Seq", t |->
+         [k |-> "Struct", name |-> <<>>, data |-> [k |-> "Struct", fs |-> <<NF(<<110,97,109,101>>, [k |-> "String"]), NF(<<116,121>>, S_)>>]]]]] >>]
+MetaVariant == [k |-> "Struct", name |-> <<>>, data |-> [k |-> "Struct", fs |-> <<NF(<<110,97,109,101>>, [k |-> "String"]), NF(<<100,97,116,97>>, MetaData)>>]]
+KindName(k) == CASE k = "Bool" -> <<66,111,111,108>> [] k = "I8" -> <<73,56>> [] k = "U8" -> <<85,56>> [] k = "I16" -> <<73,49,54>> [] k = "I32" -> <<73,51,50>>
+  [] k = "I64" -> <<73,54,52>> [] k = "I128" -> <<73,49,50,56>> [] k = "U16" -> <<85,49,54>> [] k = "U32" -> <<85,51,50>> [] k = "U64" -> <<85,54,52>>
+  [] k = "U128" -> <<85,49,50,56>> [] k = "Usize" -> <<85,115,105,122,101>> [] k = "Isize" -> <<73,115,105,122,101>> [] k = "F32" -> <<70,51,50>>
+  [] k = "F64" -> <<70,54,52>> [] k = "Char" -> <<67,104,97,114>> [] k = "String" -> <<83,116,114,105,110,103>> [] k = "ByteArray" -> <<66,121,116,101,65,114,114,97,121>>
+  [] k = "Option" -> <<79,112,116,105,111,110>> [] k = "Unit" -> <<85,110,105,116>> [] k = "Seq" -> <<83,101,113>> [] k = "Tuple" -> <<84,117,112,108,101>>
+  [] k = "Map" -> <<77,97,112>> [] k = "Struct" -> <<83,116,114,117,99,116>> [] k = "Enum" -> <<69,110,117,109>> [] k = "Schema" -> <<83,99,104,101,109,97>>
+MetaVarData(k) == CASE k \in {"Option", "Seq"} -> [k |-> "Newtype", t |-> S_]
+  [] k = "Tuple" -> [k |-> "Newtype", t |-> [k |-> "Seq", t |-> S_]]
+  [] k = "Map" -> [k |-> "Struct", fs |-> <<NF(<<107,101,121>>, S_), NF(<<118,97,108>>, S_)>>]
+  [] k = "Struct" -> [k |-> "Struct", fs |-> <<NF(<<110,97,109,101>>, [k |-> "String"]), NF(<<100,97,116,97>>, MetaData)>>]
+  [] k = "Enum" -> [k |-> "Struct", fs |-> <<NF(<<110,97,109,101>>, [k |-> "String"]), NF(<<118,97,114,105,97,110,116,115>>, [k |-> "Seq", t |-> MetaVariant])>>]
+  [] OTHER -> [k |-> "Unit"]
+MetaSchema == [k |-> "Enum", name |-> <<>>, variants |-> [i \in 1..Len(Kinds) |-> [name |-> KindName(Kinds[i]), data |-> MetaVarData(Kinds[i])]]]
+
+IntKind(k) == CASE k = "I8" -> "i8" [] k = "U8" -> "u8" [] k = "I16" -> "i16" [] k = "I32" -> "i32" [] k = "I64" -> "i64" [] k = "I128" -> "i128"
+  [] k = "U16" -> "u16" [] k = "U32" -> "u32" [] k = "U64" -> "u64" [] k = "U128" -> "u128" [] k = "Usize" -> "u64" [] k = "Isize" -> "i64" [] OTHER -> ""
+Has_(r, f) == f \in DOMAIN r
+RECURSIVE Conforms(_, _), ConformsData(_, _, _)
+AllConf(ts, vs) == Len(ts) = Len(vs) /\ \A i \in 1..Len(ts) : Conforms(ts[i], vs[i])
+FieldsConf(fs, xs) == Len(fs) = Len(xs) /\ \A i \in 1..Len(fs) : fs[i].name = xs[i].n /\ Conforms(fs[i].ty, xs[i].v)
+\* data of a struct (form = "struct") or of an enum variant (form = "variant") against call-tree node t
+ConformsData(d, t, form) ==
+  LET sfx == IF form = "struct" THEN "_struct" ELSE "_variant" IN
+  CASE d.k = "Unit" -> t.c = "unit" \o sfx
+    [] d.k = "Newtype" -> t.c = "newtype" \o sfx /\ Conforms(d.t, t.v)
+    [] d.k = "Tuple" -> t.c = "tuple" \o sfx /\ t.len = Len(d.ts) /\ AllConf(d.ts, t.vs)
+    [] d.k = "Struct" -> t.c = (IF form = "struct" THEN "struct" ELSE "struct_variant") /\ t.len = Len(d.fs) /\ FieldsConf(d.fs, t.fs)
+Conforms(s, t) ==
+  CASE s.k = "Bool" -> t.c = "bool"
+    [] IntKind(s.k) # "" -> t.c = IntKind(s.k)
+    [] s.k = "F32" -> t.c = "f32" [] s.k = "F64" -> t.c = "f64" [] s.k = "Char" -> t.c = "char"
+    [] s.k = "String" -> t.c = "str" [] s.k = "ByteArray" -> t.c = "bytes" [] s.k = "Unit" -> t.c = "unit"
+    [] s.k = "Option" -> t.c = "none" \/ (t.c = "some" /\ Conforms(s.t, t.v))
+    [] s.k = "Seq" -> t.c = "seq" /\ t.len = Len(t.vs) /\ \A i \in 1..Len(t.vs) : Conforms(s.t, t.vs[i])
+    [] s.k = "Tuple" -> t.c = "tuple" /\ t.len = Len(s.ts) /\ AllConf(s.ts, t.vs)
+    [] s.k = "Map" -> t.c = "map" /\ t.len = Len(t.ps) /\ \A i \in 1..Len(t.ps) : Conforms(s.key, t.ps[i][1]) /\ Conforms(s.val, t.ps[i][2])
+    [] s.k = "Struct" -> ConformsData(s.data, t, "struct")
+    [] s.k = "Enum" -> /\ t.c \in {"unit_variant", "newtype_variant", "tuple_variant", "struct_variant"}
+                       /\ t.i < Len(s.variants) /\ s.variants[t.i + 1].name = t.vn
+                       /\ ConformsData(s.variants[t.i + 1].data, t, "variant")
+    [] s.k = "Schema" -> Conforms(MetaSchema, t)
+\* every struct/enum/field/variant name appearing directly in a top-level struct or enum
+DirectNames(t) == CASE t.k = "Struct" -> {t.name} \cup (IF t.data.k = "Struct" THEN {t.data.fs[i].name : i \in 1..Len(t.data.fs)} ELSE {})
+                    [] t.k = "Enum" -> {t.name} \cup {t.variants[i].name : i \in 1..Len(t.variants)}
+                             \cup UNION {IF t.variants[i].data.k = "Struct" THEN {t.variants[i].data.fs[j].name : j \in 1..Len(t.variants[i].data.fs)} ELSE {} : i \in 1..Len(t.variants)}
+                    [] OTHER -> {}
 =============================================================================
